@@ -88,8 +88,8 @@ func H_C09_Contains() {
 	if vrt.Thorough() {
 		n = 2
 	}
-	h := c09Header("h", n+1)
-	h2 := c09Header("s", n)
+	h := c09Header("h", 2)
+	h2 := c09Header("s", n) // thorough: up to two signed stamps / links / tags against up to two present ones
 	vrt.Known("C09-contains-nil-digest", h.Digest == nil && h2.Digest != nil)
 	got := h.Contains(h2)
 	vrt.Assert(vrt.Iff(got, c09Reference(h, h2)), "contains-iff-every-signed-entry-present")
